@@ -5,11 +5,13 @@ package snaps
 
 import (
 	"fmt"
+	"net"
 	"os"
 	"path/filepath"
 	"strings"
 	"testing"
 
+	"github.com/goccy/go-yaml"
 	"pgregory.net/rapid"
 )
 
@@ -66,7 +68,8 @@ func (s yamlDemoSpec) build(reverse bool) yamlDemo {
 	return d
 }
 
-var invalidYAML = []string{"a: [1, 2", "a: 'unterminated", "a: \"unterminated", "a: b: c", "a: *missing", "k: &x 1\nb: *y\n", "\tindented: with tab", "a: 1\n b: 2\n", "{a: 1", "- a\n-b: [", "a: 1\n---\nb: *nope\n", "? [", "a: |\nnot indented\nb: {"}
+var invalidYAML = []string{"a: 1\na: 2\n", "{y: 1, y: 2}", "x: &d\n  k: 1\nsvc:\n  <<: *d\n  image: a\n  image: b\n", "# merged with <<\nimage: a\nimage: b\n",
+	"base: &b {k: 1}\none:\n  <<: *b\n---\nscript: a\nscript: b\n", "a: [1, 2", "a: 'unterminated", "a: \"unterminated", "a: b: c", "a: *missing", "k: &x 1\nb: *y\n", "\tindented: with tab", "a: 1\n b: 2\n", "{a: 1", "- a\n-b: [", "a: 1\n---\nb: *nope\n", "? [", "a: |\nnot indented\nb: {"}
 
 func genC18(t *rapid.T) c18Case {
 	c := c18Case{Test: genTestName(t), Before: rapid.IntRange(0, 2).Draw(t, "before")}
@@ -143,6 +146,9 @@ func genC18(t *rapid.T) c18Case {
 }
 
 func checkC18(c c18Case) error {
+	if err := checkC18TypedValues(c.Test, len(c.Doc)+len(c.Value)+c.Before+c.HugeN); err != nil {
+		return err
+	}
 	root := scratchDir()
 	defer os.RemoveAll(root)
 	spec := CfgSpec{Dir: "snaps", Filename: "f"}
@@ -328,6 +334,36 @@ func storeYAMLValue(v any, test string) (string, error) {
 		return "", fmt.Errorf("storing the value again: %d entries (%v)", len(es), err)
 	}
 	return string(es[0].Body), nil
+}
+
+type c18Severity uint8
+type c18Manifest []byte
+type c18Text string
+
+// c18TypedValues: Go values that are NOT documents (their kinds resemble string / []byte): each must be stored as the YAML
+// library marshals it with the fixed encoder options (snaps/matchYAML.go: Indent(2), IndentSequence(true)).
+func c18TypedValues() []any {
+	return []any{
+		[]c18Severity{1, 2, 3}, []c18Severity{}, []c18Severity{91, 58, 32}, c18Manifest("a: 1\n"), c18Text("a: 1"), c18Text("plain"),
+		net.ParseIP("10.0.0.1"), map[string]any{"levels": []c18Severity{4, 5}, "name": c18Text("x")}, []string{"a", "b"}, [3]int{1, 2, 3},
+	}
+}
+
+func checkC18TypedValues(test string, pick int) error {
+	vals := c18TypedValues()
+	v := vals[pick%len(vals)]
+	want, err := yaml.MarshalWithOptions(v, yaml.Indent(2), yaml.IndentSequence(true))
+	if err != nil {
+		return nil // not marshalable: outside the clause
+	}
+	got, err := storeYAMLValue(v, test)
+	if err != nil {
+		return fmt.Errorf("Go value %T(%v), which the YAML library marshals to %q: %v", v, v, clip(string(want)), err)
+	}
+	if strings.TrimSuffix(refUnescape(got), "\n") != strings.TrimSuffix(string(want), "\n") {
+		return fmt.Errorf("Go value %T(%v) is stored as %q, the YAML library (Indent 2, IndentSequence) marshals it to %q", v, v, clip(got), clip(string(want)))
+	}
+	return nil
 }
 
 func classifyC18(c c18Case) ([]string, bool) {
